@@ -51,9 +51,10 @@ type Ev struct {
 }
 
 type Op struct {
-	K   string `json:"k"` // block | reorg | query
-	Num uint64 `json:"num,omitempty"`
-	Evs []Ev   `json:"evs,omitempty"`
+	K     string `json:"k"` // block | reorg | query | reorg_fault
+	Num   uint64 `json:"num,omitempty"`
+	Evs   []Ev   `json:"evs,omitempty"`
+	Fault string `json:"fault,omitempty"` // reorg_fault: tree (the purge of the tree's root table fails) | commit (the COMMIT fails)
 }
 
 type In struct {
@@ -209,6 +210,7 @@ type sut struct {
 	reorg   func(b uint64) error
 	close   func()
 	inspect *sql.DB
+	rootTbl string // root table of the append-only tree (exit tree / L1 info tree)
 }
 
 func blockHash(num uint64) common.Hash {
@@ -237,6 +239,7 @@ func newSut(syncer, dir string) (*sut, error) {
 		}
 		s.reorg = func(b uint64) error { return bridgesync.VerifC14Reorg(ctx, bs, b) }
 		s.close = func() { _ = bridgesync.VerifC14Close(bs) }
+		s.rootTbl = "root"
 	case l1Syncer:
 		ls, err := l1infotreesync.NewVerifC14L1InfoTreeSync(path)
 		if err != nil {
@@ -252,6 +255,7 @@ func newSut(syncer, dir string) (*sut, error) {
 		}
 		s.reorg = func(b uint64) error { return l1infotreesync.VerifC14Reorg(ctx, ls, b) }
 		s.close = func() { _ = l1infotreesync.VerifC14Close(ls) }
+		s.rootTbl = "l1_info_root"
 	default:
 		return nil, fmt.Errorf("unknown syncer %q", syncer)
 	}
@@ -268,6 +272,29 @@ func (s *sut) blockTable() (last, rows uint64) {
 		panic(fmt.Sprintf("cannot inspect the block table: %v", err))
 	}
 	return
+}
+
+// armFault injects a storage fault that hits a Reorg transaction AFTER its `DELETE FROM block` statement, through a second
+// connection to the same SQLite file; the returned function removes it again.
+//   tree:   BEFORE DELETE trigger on the tree's root table raising ABORT (fires iff the purge has a root row to delete)
+//   commit: a deferred foreign key pinning every block row >= first (the COMMIT fails iff one of them was deleted)
+func (s *sut) armFault(kind string, first uint64) func() {
+	exec := func(q string, args ...any) {
+		if _, err := s.inspect.Exec(q, args...); err != nil {
+			panic(fmt.Sprintf("fault injection %q: %v", q, err))
+		}
+	}
+	switch kind {
+	case "tree":
+		exec(fmt.Sprintf(`CREATE TRIGGER zz_verif_c14_fault BEFORE DELETE ON %s
+			BEGIN SELECT RAISE(ABORT, 'verif c14: injected storage fault'); END;`, s.rootTbl))
+		return func() { exec(`DROP TRIGGER zz_verif_c14_fault;`) }
+	case "commit":
+		exec(`CREATE TABLE zz_verif_c14_pin (b INTEGER REFERENCES block(num) DEFERRABLE INITIALLY DEFERRED);`)
+		exec(`INSERT INTO zz_verif_c14_pin (b) SELECT num FROM block WHERE num >= $1;`, first)
+		return func() { exec(`DROP TABLE zz_verif_c14_pin;`) }
+	}
+	panic("unknown fault kind " + kind)
 }
 
 func classify(err error) (string, string) {
@@ -409,6 +436,11 @@ func runScenario(syncer string, ops []Op, methods []string) ([]stepRes, error) {
 			sr.common = StepObs{Out: c, Detail: d}
 		case "reorg":
 			c, d := classify(s.reorg(op.Num))
+			sr.common = StepObs{Out: c, Detail: d}
+		case "reorg_fault":
+			disarm := s.armFault(op.Fault, op.Num)
+			c, d := classify(s.reorg(op.Num))
+			disarm()
 			sr.common = StepObs{Out: c, Detail: d}
 		case "query":
 			sr.query = map[string]StepObs{}
@@ -644,6 +676,26 @@ func (b *builder) reorg(first uint64) {
 	}
 }
 
+// reorgFault appends a Reorg under an armed storage fault. The builder only needs to know whether the fault will hit
+// (then nothing changes) or not (then it is an ordinary reorg).
+func (b *builder) reorgFault(kind string, first uint64) {
+	fires := false
+	for _, w := range b.blocks {
+		if w.num >= first && (kind == "commit" || w.lastIdx >= 0 || len(w.leaves) > 0) {
+			fires = true
+		}
+	}
+	if !fires {
+		b.reorg(first)
+		b.ops[len(b.ops)-1] = Op{K: "reorg_fault", Num: first, Fault: kind}
+		return
+	}
+	b.ops = append(b.ops, Op{K: "reorg_fault", Num: first, Fault: kind})
+	if kind == "commit" {
+		b.cache = -1 // AppendOnlyTree.Reorg ran before the commit failed
+	}
+}
+
 func (b *builder) query() { b.ops = append(b.ops, Op{K: "query"}) }
 
 func faultsOf(syncer string) []string {
@@ -709,7 +761,13 @@ func templateScenarios(syncer string, rng *hlib.Rng) []scenario {
 				b.reorg(above) // removes nothing
 				b.query()
 				b.block(0, "", false) // still halted
-				b.reorg(point)        // removes processed blocks
+				// the same reorg, but its transaction fails after the block rows were deleted: error, nothing removed, still halted
+				b.reorgFault([]string{"commit", "tree"}[shape], point)
+				b.query()
+				b.block(0, "", false)
+				b.reorgFault([]string{"tree", "commit"}[shape], point)
+				b.query()
+				b.reorg(point) // removes processed blocks
 				b.query()
 				if b.next <= b.tip() {
 					b.next = b.tip() + 1
@@ -762,6 +820,26 @@ func templateScenarios(syncer string, rng *hlib.Rng) []scenario {
 		b.query()
 		res = append(res, scenario{syncer, "none", "none", b.ops})
 	}
+	// the history of the seeded change C14_1: blocks 1, 2 (one leaf each), an inconsistent block 3, then Reorg(2) failing in the
+	// tree purge / at commit, then the same Reorg without fault
+	for _, kind := range []string{"tree", "commit"} {
+		b := newBuilder(syncer, hlib.NewRng(rng.U64()))
+		b.next = 1
+		b.block(1, "", false)
+		b.next = 2
+		b.block(1, "", false)
+		b.next = 3
+		b.block(0, faultsOf(syncer)[0], false)
+		b.query()
+		b.reorgFault(kind, 2)
+		b.query()
+		b.next = 3
+		b.block(0, "", false)
+		b.query()
+		b.reorg(2)
+		b.query()
+		res = append(res, scenario{syncer, routeOf(faultsOf(syncer)[0]), "failed(" + kind + ")@2,delete@2", b.ops})
+	}
 	// never halted: reorgs on a healthy syncer, duplicate block numbers
 	{
 		b := newBuilder(syncer, hlib.NewRng(rng.U64()))
@@ -771,6 +849,10 @@ func templateScenarios(syncer string, rng *hlib.Rng) []scenario {
 		b.block(0, "dup", false)
 		b.query()
 		b.reorg(b.tip() + 1)
+		b.query()
+		b.reorgFault("commit", b.tip())
+		b.query()
+		b.reorgFault("tree", 0)
 		b.query()
 		b.reorg(b.tip())
 		b.query()
@@ -810,7 +892,11 @@ func randomScenario(syncer string, rng *hlib.Rng) scenario {
 			default:
 				p = b.next
 			}
-			b.reorg(p)
+			if b.rng.Intn(3) == 0 {
+				b.reorgFault(hlib.Pick(b.rng, "tree", "commit"), p)
+			} else {
+				b.reorg(p)
+			}
 			if b.next <= b.tip() {
 				b.next = b.tip() + 1
 			}
